@@ -45,7 +45,7 @@ K07 = [
         "app/__init__.py": "", "app/settings.py": "top = 1\n", "app/util.py": "{0} = 2\n",
         "app/core/__init__.py": "", "app/core/helpers.py": "hh = 3\n", "app/core/util.py": "{1} = 4\n",
         "app/core/runner.py": "from . import helpers\nfrom .. import settings\nfrom .util import {1} as {2}\nfrom ..util import {0} as {3}\nprint(helpers.hh, settings.top, {2}, {3})\n"}),
-     ["organize_imports@app/core/runner.py", "handle_long_imports@app/core/runner.py", "froms_to_imports@app/core/runner.py"]),
+     ["organize_imports@app/core/runner.py", "handle_long_imports@app/core/runner.py", "!froms_to_imports@app/core/runner.py"]),
     # the same object reached through a plain import and through a from-import of the same module
     (sk("k11_plain_and_from_import_of_one_module", "import pc\nfrom pc import ns\nfrom pc import ns as {0}\n{1} = ns.x + pc.ns.x + {0}.x\nprint({1})\n", {"pc.py": "class ns:\n    x = 42\n"}),
      ["froms_to_imports", "organize_imports"]),
